@@ -542,8 +542,17 @@ func runGate(ctx *Ctx) {
 			low = append(low, fmt.Sprintf("%s(removed %d, kept %d)", k, st.removed[k], st.kept[k]))
 		}
 	}
+	// the XML / JSON halves of the oracle must have run (they depend on reading the library's documents and on
+	// patching the header version in them: if the document syntax changes, say so instead of silently skipping)
+	for _, c := range textCodecs {
+		for _, what := range []string{"gate.text.", "gate.textdec."} {
+			if ctx.Res.Distribution[what+c.name] < n {
+				low = append(low, fmt.Sprintf("%s%s(%d of at least %d)", what, c.name, ctx.Res.Distribution[what+c.name], n))
+			}
+		}
+	}
 	sort.Strings(low)
 	if len(low) > 0 {
-		ctx.Res.Fail(fmt.Sprintf("coverage floor %d not reached for pinned rows: %s", floor, strings.Join(low, ", ")))
+		ctx.Res.Fail(fmt.Sprintf("coverage floor %d not reached: %s", floor, strings.Join(low, ", ")))
 	}
 }
